@@ -429,7 +429,7 @@ func solve(query string, name string, timeout time.Duration, all bool, tmpdir st
 					}
 				}
 			} else if !decided {
-				if final.Answer == "timeout" || r.ans == "unknown" {
+				if (final.Answer == "timeout" && final.Solver == "") || r.ans == "unknown" || (final.Answer == "error" && r.ans != "error") {
 					final.Answer, final.Solver, final.Ms, final.Output = r.ans, r.j.solver, r.ms, r.out
 				}
 			}
@@ -448,6 +448,24 @@ func solve(query string, name string, timeout time.Duration, all bool, tmpdir st
 	if afile != "" {
 		stageA = append(stageA, job{"z3new", afile, true})
 	}
+	// lean variant: all quantified assumptions dropped (fewer assumptions: unsat stays sound)
+	lfile := ""
+	if !noAbstract && strings.Contains(query, "forall") {
+		var lb strings.Builder
+		for _, ln := range strings.Split(query, "\n") {
+			if strings.HasPrefix(ln, "(assert") && strings.Contains(ln, "(forall") && !strings.HasPrefix(ln, "(assert (not ") {
+				continue
+			}
+			lb.WriteString(ln)
+			lb.WriteString("\n")
+		}
+		lfile = filepath.Join(tmpdir, safe+".lean.smt2")
+		if os.WriteFile(lfile, []byte(lb.String()), 0o644) == nil {
+			stageA = append(stageA, job{"z3new", lfile, true})
+		} else {
+			lfile = ""
+		}
+	}
 	la := 1500 * time.Millisecond
 	if timeout < la {
 		la = timeout
@@ -458,6 +476,9 @@ func solve(query string, name string, timeout time.Duration, all bool, tmpdir st
 	stageB := []job{{"z3new7", file, false}, {"cvc5e", file, false}, {"z3", file, false}, {"z3new", file, false}}
 	if afile != "" {
 		stageB = append(stageB, job{"z3new7", afile, true}, job{"cvc5e", afile, true}, job{"z3new", afile, true})
+	}
+	if lfile != "" {
+		stageB = append(stageB, job{"z3new", lfile, true}, job{"cvc5", lfile, true})
 	}
 	runStage(stageB, timeout, false)
 	return final
